@@ -76,6 +76,8 @@ type c20Files struct {
 	// so the bar and the solo bar must draw at exactly the same callbacks
 	noThrottle bool
 	lastPct    int // the percentage of the last line of the current file, -1 = none yet
+	lastTok    string
+	rep        int
 	order      []string // the callbacks in the order they were delivered, for the language of orders (cb_lang_ok)
 }
 
@@ -85,6 +87,22 @@ func (c *ctx) c20NewFiles(clock *atomic.Int64, base int64, cols int, label strin
 		main: trzsz.VerifNewProgress(int32(cols), 0, ""), probe: trzsz.VerifNewProgress(2000, 0, ""),
 		tabs: c20NewTabs(), first: true, pre: -1, lastPct: -1,
 		desc: fmt.Sprintf("files(%s): newTextProgressBar(columns=%d)", label, cols)}
+}
+
+// the description of the history so far; a callback repeated with the same argument is written once with its count
+func (f *c20Files) add(tok string) {
+	if tok == f.lastTok {
+		f.rep++
+		return
+	}
+	f.desc, f.lastTok, f.rep = f.d()+tok, tok, 1
+}
+
+func (f *c20Files) d() string {
+	if f.rep > 1 {
+		return fmt.Sprintf("%s x%d", f.desc, f.rep)
+	}
+	return f.desc
 }
 
 func c20Apply(q *trzsz.VerifProgress, kind string, num int64, name string) {
@@ -127,19 +145,19 @@ func (f *c20Files) call(kind string, num int64, name string) {
 		f.name, f.sizes, f.pre, f.lines = name, nil, -1, 0
 		f.lastPct = -1
 		f.solo = trzsz.VerifNewProgress(2000, 0, "")
-		f.desc += fmt.Sprintf(" | file %d: onName(%s)", f.fileNo, c20NameDesc(name))
+		f.add(fmt.Sprintf(" | file %d: onName(%s)", f.fileNo, c20NameDesc(name)))
 	case "Z":
 		f.sizes = append(f.sizes, num)
-		f.desc += fmt.Sprintf(" onSize(%d)", num)
+		f.add(fmt.Sprintf(" onSize(%d)", num))
 	case "P":
 		f.pre = num
-		f.desc += fmt.Sprintf(" setPreSize(%d)", num)
+		f.add(fmt.Sprintf(" setPreSize(%d)", num))
 	case "S":
-		f.desc += fmt.Sprintf(" onStep(%d)", num)
+		f.add(fmt.Sprintf(" onStep(%d)", num))
 	case "D":
-		f.desc += " onDone()"
+		f.add(" onDone()")
 	case "N":
-		f.desc += fmt.Sprintf(" onNum(%d)", num)
+		f.add(fmt.Sprintf(" onNum(%d)", num))
 	}
 	switch kind {
 	case "M":
@@ -184,7 +202,7 @@ func (f *c20Files) call(kind string, num int64, name string) {
 		f.ops = append(f.ops, fmt.Sprintf("%s:%d", kind, num))
 	}
 	if pan {
-		c.violate("files:panic", "rendering the progress line panics", f.desc+": panic: "+msg)
+		c.violate("files:panic", "rendering the progress line panics", f.d()+": panic: "+msg)
 		f.outs = append(f.outs, "panic")
 		f.dead = true
 		return
@@ -201,7 +219,7 @@ func (f *c20Files) call(kind string, num int64, name string) {
 			return fmt.Sprintf("%q", strings.Join(x, " | "))
 		}
 		c.violate("files:line-missing-or-extra", "a callback of a file draws a line on the bar but not on a fresh bar that saw only this file (or the other way round): state of an earlier file leaks into it",
-			fmt.Sprintf("%s: the bar shows %s, a bar that saw only file %d shows %s", f.desc, shown(pf), f.fileNo, shown(sf)))
+			fmt.Sprintf("%s: the bar shows %s, a bar that saw only file %d shows %s", f.d(), shown(pf), f.fileNo, shown(sf)))
 	}
 	if pf != nil {
 		f.lines++
@@ -210,19 +228,19 @@ func (f *c20Files) call(kind string, num int64, name string) {
 			f.compared++
 			if strings.Join(pf, " | ") != strings.Join(sf, " | ") {
 				c.violate("files:line-depends-on-earlier-file", "a progress line of a file differs from the line the same callbacks produce on a fresh bar: state of an earlier file leaks into it",
-					fmt.Sprintf("%s: the bar shows %q, a bar that saw only file %d shows %q", f.desc, strings.Join(pf, " | "), f.fileNo, strings.Join(sf, " | ")))
+					fmt.Sprintf("%s: the bar shows %q, a bar that saw only file %d shows %q", f.d(), strings.Join(pf, " | "), f.fileNo, strings.Join(sf, " | ")))
 			}
 		}
 		fresh := f.pre < 0 && len(f.sizes) == 1
 		if kind == "S" && num == 0 && fresh && f.sizes[0] > 0 && (pf[0] != "0%" || pf[1] != c20SizeText(0)) {
 			c.violate("files:fresh-file-does-not-start-at-zero", "a file that is sent from its beginning does not start at 0 % with nothing transferred",
-				fmt.Sprintf("%s: the line shows %s | %s", f.desc, pf[0], pf[1]))
+				fmt.Sprintf("%s: the line shows %s | %s", f.d(), pf[0], pf[1]))
 		}
 		if kind == "D" && len(f.sizes) > 0 {
 			full := f.sizes[0] // the first size announced for a file is its full size
 			if want := c20SizeText(full); pf[0] != "100%" || pf[1] != want {
 				c.violate("files:file-does-not-end-at-own-size", "the last line of a file does not show 100 % of the file's own size",
-					fmt.Sprintf("%s: file %d has %d bytes (%s), its last line shows %s | %s", f.desc, f.fileNo, full, want, pf[0], pf[1]))
+					fmt.Sprintf("%s: file %d has %d bytes (%s), its last line shows %s | %s", f.d(), f.fileNo, full, want, pf[0], pf[1]))
 			}
 		}
 		if kind == "S" && len(f.sizes) > 0 && f.sizes[0] > 0 {
@@ -235,15 +253,15 @@ func (f *c20Files) call(kind string, num int64, name string) {
 				wantPct := fmt.Sprintf("%d%%", (200*pos+full)/(2*full))
 				if wantTotal := c20SizeText(pos); pf[1] != wantTotal || pf[0] != wantPct {
 					c.violate("files:line-shows-wrong-position", "a progress line does not show the file's own position (prefix already present + bytes sent) of its own size",
-						fmt.Sprintf("%s: position %d of %d bytes is %s | %s, the line shows %s | %s", f.desc, pos, full, wantPct, wantTotal, pf[0], pf[1]))
+						fmt.Sprintf("%s: position %d of %d bytes is %s | %s, the line shows %s | %s", f.d(), pos, full, wantPct, wantTotal, pf[0], pf[1]))
 				}
 			}
 		}
-		if v, ok := f.c.c20PctRange(pf[0], f.desc); ok {
+		if v, ok := f.c.c20PctRange(pf[0], f.d()); ok {
 			// in the transfer's own callback order the full size and the remaining size of a file agree, so the
 			// percentage may not fall anywhere between two onName calls
 			if v < f.lastPct {
-				c.violate("pct-decreased", "percentage decreased within a file", fmt.Sprintf("%s: %d%% after %d%%", f.desc, v, f.lastPct))
+				c.violate("pct-decreased", "percentage decreased within a file", fmt.Sprintf("%s: %d%% after %d%%", f.d(), v, f.lastPct))
 			}
 			f.lastPct = v
 		}
@@ -263,7 +281,7 @@ func (f *c20Files) call(kind string, num int64, name string) {
 		}
 		f.first = false
 		if w := c20Width(text); f.cols >= 5 && w > f.cols {
-			c.violate("width:history", "progress line wider than the terminal", fmt.Sprintf("%s: columns=%d width=%d line=%q", f.desc, f.cols, w, text))
+			c.violate("width:history", "progress line wider than the terminal", fmt.Sprintf("%s: columns=%d width=%d line=%q", f.d(), f.cols, w, text))
 		}
 		parts = append(parts, c20Runes(rest))
 	}
@@ -410,12 +428,29 @@ type c20Lag struct {
 	mDelivered int
 	overlaps   [][3]string
 	history    []string
+	histLast   string
+	histRep    int
+}
+
+func c20CallDesc(kind string, num int64, name string) string {
+	switch kind {
+	case "M":
+		return fmt.Sprintf("onName(%s)", c20NameDesc(name))
+	case "D":
+		return "onDone()"
+	}
+	return fmt.Sprintf("%s(%d)", map[string]string{"N": "onNum", "Z": "onSize", "S": "onStep", "P": "setPreSize", "U": "setPause"}[kind], num)
 }
 
 func (l *c20Lag) before(kind string, num int64, name string) {
 	l.mu.Lock()
-	what := fmt.Sprintf("%s(%d%s)", map[string]string{"N": "onNum", "M": "onName", "Z": "onSize", "S": "onStep", "D": "onDone", "P": "setPreSize", "U": "setPause"}[kind], num, name)
-	l.history = append(l.history, what)
+	what := c20CallDesc(kind, num, name)
+	if n := len(l.history); n > 0 && l.histLast == what {
+		l.histRep++
+		l.history[n-1] = fmt.Sprintf("%s x%d", what, l.histRep)
+	} else {
+		l.history, l.histLast, l.histRep = append(l.history, what), what, 1
+	}
 	if len(l.inflight) > 0 && len(l.overlaps) < 4 {
 		key, txt := "files:callbacks-overlap", "the transfer makes a progress callback while another one is still under way: it does not order them"
 		if kind == "M" {
@@ -436,7 +471,21 @@ func (l *c20Lag) before(kind string, num int64, name string) {
 		l.delayed = true
 	}
 	seen := l.mDelivered
+	// a size that arrives while a step is still under way (only a transfer that does not order its
+	// callbacks gets here) lets that step go first, so that what the bar then shows does not depend on a race
+	waitStep := kind == "Z" && len(l.inflight) > 1
 	l.mu.Unlock()
+	if waitStep {
+		for i := 0; i < 100; i++ {
+			time.Sleep(time.Millisecond)
+			l.mu.Lock()
+			alone := len(l.inflight) <= 1
+			l.mu.Unlock()
+			if alone {
+				break
+			}
+		}
+	}
 	if hold {
 		for i := 0; i < 300; i++ {
 			time.Sleep(time.Millisecond)
@@ -454,7 +503,7 @@ func (l *c20Lag) before(kind string, num int64, name string) {
 func (l *c20Lag) done(kind string, num int64, name string) {
 	l.mu.Lock()
 	defer l.mu.Unlock()
-	what := fmt.Sprintf("%s(%d%s)", map[string]string{"N": "onNum", "M": "onName", "Z": "onSize", "S": "onStep", "D": "onDone", "P": "setPreSize", "U": "setPause"}[kind], num, name)
+	what := c20CallDesc(kind, num, name)
 	for i, x := range l.inflight {
 		if x == what {
 			l.inflight = append(l.inflight[:i], l.inflight[i+1:]...)
@@ -609,14 +658,14 @@ func genProgressFiles(c *ctx) {
 				f.noThrottle = true
 				msg := trzsz.VerifRunFilesPair(paths, filepath.Join(dir, "dst"), proto, onSender, f.call)
 				if msg != "" {
-					c.violate("files:harness", "the real transfer did not complete", f.desc+": "+msg)
+					c.violate("files:harness", "the real transfer did not complete", f.d()+": "+msg)
 					continue
 				}
 				for _, rf := range sc {
 					want, _ := os.ReadFile(filepath.Join(dir, "src", rf.name))
 					got, err := os.ReadFile(filepath.Join(dir, "dst", rf.name))
 					if err != nil || string(got) != string(want) {
-						c.violate("files:harness", "the real transfer did not deliver the file", f.desc+": "+rf.name)
+						c.violate("files:harness", "the real transfer did not deliver the file", f.d()+": "+rf.name)
 					}
 				}
 				c.count("files:real-transfer")
@@ -627,7 +676,7 @@ func genProgressFiles(c *ctx) {
 					c.emit(true, "pcborder", "0", strings.Join(c20LateStep(f.order), "/"))
 				}
 				if f.fileNo != len(sc) {
-					c.violate("files:harness", "the real transfer did not announce every file", fmt.Sprintf("%s: %d of %d", f.desc, f.fileNo, len(sc)))
+					c.violate("files:harness", "the real transfer did not announce every file", fmt.Sprintf("%s: %d of %d", f.d(), f.fileNo, len(sc)))
 				}
 				f.finish(true)
 			}
@@ -659,10 +708,10 @@ func genProgressFiles(c *ctx) {
 				func(kind string, num int64, name string) { f.call(kind, num, name); lag.done(kind, num, name) }, lag.before)
 			time.Sleep(5 * time.Millisecond)
 			for _, v := range lag.overlaps {
-				c.violate(v[0], v[1], f.desc+": "+v[2])
+				c.violate(v[0], v[1], f.d()+": "+v[2])
 			}
 			if msg != "" {
-				c.violate("files:harness", "the real transfer did not complete", f.desc+": "+msg)
+				c.violate("files:harness", "the real transfer did not complete", f.d()+": "+msg)
 				continue
 			}
 			c.count("files:real-transfer-lagging-display")
